@@ -31,6 +31,7 @@ RULE = (
     ' malformed-enum: EXHAUSTIVE malformed-input kinds (incl. mmCIF rows with unreadable coordinate '
     '/ residue number, non-integral user force fields with 4 offsets) x 4 fixed structures (one of '
     '14 residues) x output absent/pre-filled.'
+    ' success also on `big` structures.  ligand: a peptide + generated MOL2 ligand complex must succeed; the same complex whose ligand HETATM block lacks one fractionally charged atom (|q| >= 0.05 from an integer) must fail and leave the output path untouched.'
 )
 ASSUMPTIONS = [
     "failures of secondary outputs (--pdb-output/--apbs-input) after a complete PQR are outside the statement",
